@@ -10,6 +10,7 @@ import (
 	"sort"
 	"strings"
 
+	metav1 "k8s.io/apimachinery/pkg/apis/meta/v1"
 	corev1alpha1 "package-operator.run/apis/core/v1alpha1"
 	"package-operator.run/internal/packages/zzverif/checks"
 	"package-operator.run/internal/packages/zzverif/checks/c03"
@@ -31,6 +32,26 @@ type diffScenario struct {
 	// Together: a successor r2 (same delegation, previous r1) exists from the start, so that both
 	// revisions roll out interleaved
 	Together bool `json:"successorFromStart"`
+	// Sliced: every phase of every revision keeps its first object inline and the others in an ObjectSlice
+	Sliced bool `json:"sliced"` // (a phase with one object keeps nothing inline)
+}
+
+// newRevision creates ObjectSet name; with sliced, each phase keeps its first object inline and
+// the rest in an ObjectSlice <name>-<phase> created first (a phase with a single object keeps
+// nothing inline).
+func newRevision(w *world.World, sliced bool, name string, ps []world.PhaseSpec, probes []corev1alpha1.ObjectSetProbe, prev ...string) {
+	if sliced {
+		for i := range ps {
+			keep := 1
+			if len(ps[i].Objects) < 2 {
+				keep = 0
+			}
+			sn := name + "-" + ps[i].Name
+			w.MustCreate(&corev1alpha1.ObjectSlice{ObjectMeta: metav1.ObjectMeta{Name: sn, Namespace: world.NS}, Objects: ps[i].Objects[keep:]})
+			ps[i].Slices, ps[i].Objects = []string{sn}, ps[i].Objects[:keep]
+		}
+	}
+	w.MustCreate(world.NewObjectSet(name, ps, probes, prev...))
 }
 
 func settle(w *world.World) bool {
@@ -53,16 +74,19 @@ func build(sc diffScenario, mask uint) *world.World {
 	if mask != 0 {
 		w.Notes["delegated"] = "yes"
 	}
+	if sc.Sliced {
+		w.Notes["sliced"] = "yes"
+	}
 	if sc.Prev {
 		// a previous revision r0{a} (always local) that r1 has to adopt a from
 		w.MustCreate(world.NewObjectSet("r0", osw.PhaseSpecs(osw.OnePhase("a"), 0), nil))
 		settle(w)
-		w.MustCreate(world.NewObjectSet("r1", osw.PhaseSpecs(osw.B1(sc.N, mask), 1), world.StdProbes(), "r0"))
+		newRevision(w, sc.Sliced, "r1", osw.PhaseSpecs(osw.B1(sc.N, mask), 1), world.StdProbes(), "r0")
 	} else {
-		w.MustCreate(world.NewObjectSet("r1", osw.PhaseSpecs(osw.B1(sc.N, mask), 1), world.StdProbes()))
+		newRevision(w, sc.Sliced, "r1", osw.PhaseSpecs(osw.B1(sc.N, mask), 1), world.StdProbes())
 	}
 	if sc.Together {
-		w.MustCreate(world.NewObjectSet("r2", osw.PhaseSpecs(osw.B1(sc.N, mask), 2), world.StdProbes(), "r1"))
+		newRevision(w, sc.Sliced, "r2", osw.PhaseSpecs(osw.B1(sc.N, mask), 2), world.StdProbes(), "r1")
 	}
 	return w
 }
@@ -119,7 +143,7 @@ func step(w *world.World, ev string) {
 				}
 			}
 		}
-		w.MustCreate(world.NewObjectSet("r2", osw.PhaseSpecs(osw.B1(len(phases), mask), 2), world.StdProbes(), "r1"))
+		newRevision(w, w.Notes["sliced"] == "yes", "r2", osw.PhaseSpecs(osw.B1(len(phases), mask), 2), world.StdProbes(), "r1")
 	case strings.HasPrefix(ev, "third-party-foreign:"):
 		// a foreign object occupies the name before rollout
 		n := strings.TrimPrefix(ev, "third-party-foreign:")
@@ -257,6 +281,11 @@ func diffScenarios(quick bool) []diffScenario {
 		}
 		out = append(out, diffScenario{N: sh.n, Mask: sh.m, Script: []string{"ready:a", "ready:b", "ready:g", "ready:c"}, Prev: true})
 		out = append(out, diffScenario{N: sh.n, Mask: sh.m, Script: []string{"ready:a", "ready:b", "ready:g", "ready:c", "ready:a", "ready:b", "ready:g", "ready:c"}, Together: true})
+		// phases whose objects partly live in ObjectSlices: first revision, revision 2 from the
+		// start (the pass that loads the slices also assigns the revision), handover, teardown
+		out = append(out, diffScenario{N: sh.n, Mask: sh.m, Sliced: true, Script: []string{"ready:a", "ready:b", "ready:g", "ready:c", "delete"}})
+		out = append(out, diffScenario{N: sh.n, Mask: sh.m, Sliced: true, Prev: true, Script: []string{"ready:a", "ready:b", "ready:g", "ready:c"}})
+		out = append(out, diffScenario{N: sh.n, Mask: sh.m, Sliced: true, Script: []string{"ready:a", "ready:b", "ready:g", "ready:c", "successor:same", "ready:a", "ready:b", "ready:g", "ready:c", "archive"}})
 	}
 	return out
 }
